@@ -163,18 +163,23 @@ def load_known(pid):
 _built = set()
 
 
-def build_harness(which="main", release=False, bins=None):
+def build_harness(which="main", release=False, bins=None, features=None, target=None):
     """cargo build of the harness (path dependency on /repo => rebuilt from its working tree).
-    bins: list of binary names to build (default: all)."""
+    bins: list of binary names to build (default: all); features/target: cargo features and a separate
+    target directory (the async-io build of fuse-backend-rs is kept apart from the default one)."""
     d = HARNESS if which == "main" else HARNESS_ASYNC
-    key = (d, release, tuple(bins or ()))
-    out = os.path.join(d, "target", "release" if release else "debug")
+    key = (d, release, tuple(bins or ()), features, target)
+    out = os.path.join(d, target or "target", "release" if release else "debug")
     if key in _built:
         return out
     lock = os.path.join(d, "Cargo.lock")
     if not os.path.exists(lock):
         shutil.copy("/repo/Cargo.lock", lock)
     cmd = ["cargo", "build", "--offline"] + (["--release"] if release else [])
+    if features:
+        cmd += ["--features", features]
+    if target:
+        cmd += ["--target-dir", target]
     if bins:
         for b in bins:
             cmd += ["--bin", b]
